@@ -273,6 +273,7 @@ def shards(tier: str, seed: int):
     out += [["stack-adv", api] for api in ("sync", "async")]
     out.append(["overlap", 2 if tier == "quick" else 3])
     out += [["servers", api] for api in ("sync", "async")]
+    out += [["bigreply", api] for api in ("sync", "async")]
     return out
 
 
@@ -285,6 +286,37 @@ def run_shard(shard, tier, seed, acc) -> None:
         acc.states += n
         acc.transitions += n * 20
         acc.sample({"two async calls in flight": "replies in two segments (header | rest), interleaved segment by segment", "deviation_bound": shard[1], "interleavings": n})
+        return
+    if what == "bigreply":
+        # replies that fill the fragment size the client itself advertised in its bind (max_recv_frag = 5840): towers with large opaque floors
+        # in front of the TCP tower, response PDUs of 3 000 .. 5 840 octets in one fragment
+        api = shard[1]
+        n = 0
+        for target in (3000, 4096, 4272, 4280, 4281, 4288, 4300, 5000, 5500, 5800, 5832, 5840):
+            for nfill in (1, 4):
+                z = 0
+                best = None
+                for z in range(0, 6000):
+                    fill = [[epm.uuid_floor(rpc.ISD_KEY), (0x55, b"", bytes(z // nfill + (1 if i < z % nfill else 0)))] for i in range(nfill)]
+                    tw = fill + [[epm.uuid_floor(rpc.ISD_KEY), epm.uuid_floor(rpc.NDR), epm.rpc_co_floor(0), epm.tcp_floor(49700), epm.ip_floor(7)]]
+                    stub = epm.ept_map_response(tw, 0)
+                    if 24 + len(stub) >= target - 7:
+                        best = stub
+                        break
+                if best is None or 24 + len(best) > 5840:
+                    continue
+                case = ["bigreply", api, target, nfill, 24 + len(best)]
+                st, v, attempts = through_stack(seed, api, best, 49700, 2000000)
+                n += 1
+                acc.nt(("bigreply", api, target, nfill))
+                if st != "ok" or v != b"c18" or attempts != [("dc", 135), ("dc", 49700)]:
+                    acc.violate("bigreply.failed", case, {"status": st, "value": repr(v)[:200], "connections": attempts, "pdu_octets": 24 + len(best)}, size=target)
+                else:
+                    acc.outcome("bigreply-ok")
+        acc.ev(n)
+        acc.states += n
+        acc.transitions += n
+        acc.sample({"api": api, "response PDU sizes": "3000 .. 5840 octets (the client's own max_recv_frag)", "large opaque floors in front of the TCP tower": [1, 4]})
         return
     if what == "servers":
         api = shard[1]
@@ -423,8 +455,8 @@ def replay(case, seed, acc) -> None:
                 del acc.violations[kk]
         acc.violation_count = sum(len(v) for v in acc.violations.values())
         return
-    if what == "servers":
-        run_shard(["servers", case[1]], "quick", seed, acc)
+    if what in ("servers", "bigreply"):
+        run_shard([what, case[1]], "quick", seed, acc)
         for kk in list(acc.violations):
             acc.violations[kk] = [e for e in acc.violations[kk] if e["case"] == case]
             if not acc.violations[kk]:
